@@ -1,7 +1,14 @@
 (* C16 — Shields have the documented strength and absorb in parallel.
-   Only statements, [exact] and [Print Assumptions] live here. *)
+   Only statements, [exact] and [Print Assumptions] live here.
+
+   First the theorems about flat histories (sequences of calls, listeners only record) and about one
+   call; then (C16_reentrant ...) the same for histories WITH re-entrant listeners: every event kind has
+   a listener slot with a queue of scripts of the manager's own operations, run inside the emission
+   (Model/ShieldRe.v).  The re-entrant theorems reduce every such history to the flat ones: each call,
+   top-level or nested, is one atomic step of the flat model, entered in the flat state of all calls
+   entered before it, so every per-call theorem below applies to it as it stands. *)
 From Coq Require Import List ZArith Reals.
-From SR Require Import Model.Shield Proofs.ShieldProofs.
+From SR Require Import Model.Shield Model.ShieldRe Proofs.ShieldProofs Proofs.ShieldReProofs.
 From SR Require Proofs.FormulasShieldProofs.
 Import ListNotations.
 
@@ -77,3 +84,83 @@ Theorem C16_nonvacuous :
     (exec FOps (init (N := PrimFloat.float)) demo_ops, demo_last_events, demo_last_return) /\
   length demo_ops = 7%nat.
 Proof. exact demo_runs. Qed.
+
+(* ------------------------------------------------------------------------------------ *)
+(* Histories WITH re-entrant listeners (all numeric instances, all script queues, all fuel; the
+   out-of-fuel outcome excluded explicitly, and unreachable above the number of script operations) *)
+
+(* the three clauses of Proofs/ShieldReProofs.v, Part 5: explained by flat atomic steps / fuel / no
+   scripts = the flat model *)
+Theorem C16_reentrant : C16_reentrant_statement.
+Proof. exact C16_reentrant_holds. Qed.
+Print Assumptions C16_reentrant.
+
+(* at most one shield per key after any re-entrant history *)
+Theorem C16_reentrant_one_shield_per_key :
+  forall (N : Type) (O : NumOps N) nu nk fuel (q : slots N) ops w2 q2 t u,
+    runL O nu nk fuel q (init (N := N)) ops = Done (w2, q2, t) -> NoDup (keys (get_sh w2 u)).
+Proof.
+  intros N O nu nk fuel q ops w2 q2 t u H.
+  exact (proj2 (proj2 (reentrant_explained O nu nk fuel q _ ops w2 q2 t (wf_init (N := N)) H)) u).
+Qed.
+Print Assumptions C16_reentrant_one_shield_per_key.
+
+(* every point of the trace: a call (top-level or nested) is entered in the flat state of the calls
+   entered before it, with unique keys, and meets the per-call specification there; the state a listener
+   sees, and the state right after a return, is that flat state *)
+Theorem C16_reentrant_every_call_meets_spec :
+  forall (N : Type) (O : NumOps N) nu nk fuel (q : slots N) ops w2 q2 t,
+    runL O nu nk fuel q (init (N := N)) ops = Done (w2, q2, t) ->
+    forall a x b, t = a ++ x :: b ->
+      match x with
+      | TCall o => wf (exec O (init (N := N)) (tcalls a)) /\
+                   step_spec O (exec O (init (N := N)) (tcalls a)) o (step O (exec O (init (N := N)) (tcalls a)) o)
+      | TEv _ p => p = probe O nu nk (exec O (init (N := N)) (tcalls a))
+      | TRet _ p => p = probe O nu nk (exec O (init (N := N)) (tcalls a))
+      end.
+Proof.
+  intros N O nu nk fuel q ops w2 q2 t H.
+  exact (reentrant_observations O nu nk fuel q _ ops w2 q2 t (wf_init (N := N)) H).
+Qed.
+Print Assumptions C16_reentrant_every_call_meets_spec.
+
+Theorem C16_reentrant_fuel_is_enough :
+  forall (N : Type) (O : NumOps N) nu nk fuel (q : slots N) (w : world N) ops,
+    (total_ops q < fuel)%nat -> exists w2 q2 t, runL O nu nk fuel q w ops = Done (w2, q2, t).
+Proof. exact @fuel_enough. Qed.
+Print Assumptions C16_reentrant_fuel_is_enough.
+
+(* The clause that is about ONE call without interference: "what the call leaves behind when it
+   RETURNS meets the per-call specification".  False with re-entrant listeners (a ShieldAdded listener
+   removes the shield before AddShield returns); true at the call's commit (above) and for the whole call
+   whenever no listener called the manager during it. *)
+Theorem C16_whole_call_meets_spec_refuted : ~ C16_whole_call_meets_spec_statement.
+Proof. exact whole_call_meets_spec_refuted. Qed.
+Print Assumptions C16_whole_call_meets_spec_refuted.
+
+Theorem C16_whole_call_meets_spec_partial :
+  forall (N : Type) (O : NumOps N) nu nk fuel (q : slots N) (w : world N) o w2 q2 t, wf w ->
+    call O nu nk fuel q w o = Done (w2, q2, t) -> tcalls t = [o] ->
+    step_spec O w o (w2, snd (fst (step O w o)), snd (step O w o)).
+Proof. exact @whole_call_meets_spec_partial. Qed.
+Print Assumptions C16_whole_call_meets_spec_partial.
+
+(* two readings of "announced" the property does not make, false with re-entrant listeners: the payload
+   of an event is fixed at the commit of the call that emits it *)
+Theorem C16_change_event_is_current_refuted : ~ C16_change_event_is_current_statement.
+Proof. exact change_event_is_current_refuted. Qed.
+Print Assumptions C16_change_event_is_current_refuted.
+
+Theorem C16_removed_means_absent_refuted : ~ C16_removed_means_absent_statement.
+Proof. exact removed_means_absent_refuted. Qed.
+Print Assumptions C16_removed_means_absent_refuted.
+
+(* non-vacuity with a re-entrant history three levels deep: a ShieldRemoved listener re-adds the key
+   being reported, the ShieldAdded listener of that call hits the unit again (ShieldRemoved a second
+   time, nested), the outer ShieldChange listener removes the shield the event names *)
+Theorem C16_reentrant_nonvacuous :
+  exists w2 q2 t,
+    runL FOps 3 4 (S (total_ops re_q)) re_q (init (N := PrimFloat.float)) re_ops = Done (w2, q2, t) /\
+    tcalls t = re_calls /\ get_sh w2 1%Z = [] /\ total_ops q2 = 0%nat /\ length t = 24%nat /\
+    nth_error t 19 = Some re_outer_change.
+Proof. exact re_demo_runs. Qed.
